@@ -332,8 +332,13 @@ func historyScenario(rn *runner, seed uint64, tier string) {
 	for i := 0; i < nA; i++ {
 		as = append(as, genSvgTextDoc(r.Sub(), i))
 	}
+	// … and documents whose rendering comes from UA-stylesheet rules computed from attributes
+	as = append(as, Doc{HTML: `<p><input value="FIRST"> <abbr title="t">a</abbr></p>`}, genFormDoc(r.Sub(), nA))
+	nA = len(as)
 	for i := 0; i < nB; i++ {
-		if i%4 == 3 {
+		if i%4 == 1 {
+			bs = append(bs, genFormDoc(r.Sub(), i))
+		} else if i%4 == 3 {
 			bs = append(bs, genUnitsDoc(r.Sub(), i))
 		} else {
 			bs = append(bs, genPlainDoc(r.Sub(), i))
@@ -369,7 +374,7 @@ func historyScenario(rn *runner, seed uint64, tier string) {
 		d2.HTML = d.HTML + "\n<!-- rendered after: -->\n<!-- " + strings.ReplaceAll(as[0].HTML, "--", "- -") + " -->"
 		_, la, lb, op := firstDiff(ref.Canon, got.Canon)
 		out.Add(res.Finding{Kind: "judge", Op: "judge:history", Input: d2.HTML, Impl: lb, Model: la,
-			Reason: fmt.Sprintf("the document rendered in a fresh process after %d documents with SVG <text> differs from the same document rendered in a fresh process on its own (first differing call %s: %q vs %q)", nA, op, la, lb),
+			Reason: fmt.Sprintf("the document rendered in a fresh process after %d other documents (SVG <text>, form controls) differs from the same document rendered in a fresh process on its own (first differing call %s: %q vs %q)", nA, op, la, lb),
 			Key:    "after-svg-text", Seed: d.Seed})
 	}
 }
